@@ -34,8 +34,16 @@ TRUSTED = ['hand-written Gallina models Model/Hamiltonians.v, Model/HamIsing.v, 
 PARTIAL = ('proved for all inputs (Properties/C20.v): with certified covers (valid cover + matching of equal size: what C18_mvc_total proves of '
            'minimum_vertex_cover) every layer width of a graph returned by from_opchains is <= the number of chains with non-zero coefficient; '
            'the model cover routine is certified on every call (so the bound is unconditional for it); simplify / merge_edges on a well-formed graph '
-           '(WF of C16; wfb evaluated per case) never add a layer and never widen one (layers = level sets; C20_simplify_bond_le). Kernel-computed, BOUNDED in L (L <= 8) and at sample parameter values: closed-form bond dimensions of every built-in model graph. NOT proved (numerical, checked by prop only): equality of the bond dimensions with the operator Schmidt rank; '
-           'the optimized molecular constructions (no Coq model here: prop only).')
+           '(WF of C16; wfb evaluated per case) never add a layer and never widen one (layers = level sets; C20_simplify_bond_le). '
+           'Proved FOR EVERY L >= 1 (Proofs/CompactAllL*.v, theorems C20_*_all_L): the bond dimension at cut k+1 of any from_opchains graph is the size of '
+           'the cover chosen at site k (C20_opchains_bond_dims_are_cover_sizes); Ising through from_automaton: [1,3,...,3,1] for all J, h, g (layer widths = '
+           'numbers of active automaton states; also at J = 0, where the Schmidt rank is 2); XXZ spin-1/2 and spin-1 with non-zero J/2, D, h: '
+           '[1,4,5,...,5,4,1]; Bose-Hubbard (any d) with non-zero t, U, mu: [1,4,...,4,1]; Fermi-Hubbard with non-zero t, U, mu: [1,6,...,6,1] -- each for '
+           'every certified cover oracle (the minimum covers are not unique), in particular the model of minimum_vertex_cover. '
+           'Kernel-computed, BOUNDED in L (L <= 8) and at sample parameter values only: the hand-wired linear fermionic graph (2). '
+           'NOT proved (numerical, checked by prop only): equality of the bond dimensions with the operator Schmidt rank (needs linear independence of '
+           'the operator families selected by a maximum matching, over the coefficient field, for generic parameters); the optimized molecular '
+           'constructions (no Coq model here: prop only).')
 ASSUMPTIONS = ['"generic parameters" = random non-zero reals / complex numbers drawn per case; rank decided numerically with relative threshold 1e-10',
                'the molecular constructions are covered at implementation level only (prop), L <= 6 (spin: L <= 3)']
 
